@@ -132,13 +132,15 @@ PROPS = {
     ),
     "C13": dict(
         modules=[P + "C13"],
-        theorems=[P + "C13." + t for t in ("gc_never_removes_busy", "gc_frame", "gc_keeps_invariant", "gc_pass_keeps_held", "gc_only_effect_is_recreation", "gc_pass_frame", "gc_changes_failing_unlock_code")]
-                 + ["Ldlm.Table.gc_safe", "Ldlm.Table.run_inv"],
-        status={P + "C13.gc_changes_failing_unlock_code": "refutation witness of strict invisibility (K11)"},
+        theorems=[P + "C13." + t for t in ("gc_never_removes_busy", "gc_frame", "gc_keeps_invariant", "gc_pass_keeps_held", "gc_only_effect_is_recreation", "gc_pass_frame", "gc_changes_failing_unlock_code",
+                                          "gc_step_invisible", "gc_pass_invisible", "gc_invisible_history", "reachable_recInv", "gc_allows_recreation")]
+                 + ["Ldlm.Table.gc_safe", "Ldlm.Table.run_inv", "Ldlm.Core.step_rel", "Ldlm.Core.advanceTo_rel", "Ldlm.Core.gc_sim_run"],
+        status={P + "C13.gc_changes_failing_unlock_code": "refutation witness of strict invisibility (K11)",
+                P + "C13.gc_allows_recreation": "witness of the one effect the property allows (re-creation with another size)"},
         streams=[CONC, SEQ],
-        level_text="M1 (every schedule, GC steps anywhere, any idle-clock reading): a GC step that deletes a lock deletes one nobody holds, is acquiring, waits on or has fetched, with a free semaphore; it leaves every other lock untouched; the table invariant holds in every state of every schedule with GC interleaved - so the code's deleted-lock panic and checks are unreachable. M2: a GC pass keeps every record that has a key, changes nothing but the lock table, and a removed record was unheld and idle longer than min-idle (the only effect: re-creation, possibly with another size). Strict invisibility is false of the code in one respect (K11: a failing Unlock with a stale key names a different reason after collection) - kernel-checked witness. Tied by conc templates (GC pass x Lock/TryLock/Unlock, min-idle 0) and a metamorphic seq run (same history with GC off, implementation vs implementation).",
-        level_note="PARTIAL by K11. A full simulation theorem 'responses with GC = responses without GC modulo K11 for size-stable histories' is not yet proved (checked by the metamorphic stream). D8 (GC racing an acquisition: double grant / panic) was found by this check and repaired (fix: 8781713). Trusted: Lean kernel, hand-written M1/M2, instrumented-build exploration.",
-        technique="Lean 4 proof (GC enabling condition + invariant over all schedules) + controlled interleavings + metamorphic GC-on/GC-off replay",
+        level_text="M1 (every schedule, GC steps anywhere, any idle-clock reading): a GC step that deletes a lock deletes one nobody holds, is acquiring, waits on or has fetched, with a free semaphore; it leaves every other lock untouched; the table invariant holds in every state of every schedule with GC interleaved - so the code's deleted-lock panic and checks are unreachable. M2: a GC pass keeps every record that has a key, changes nothing but the lock table, and a removed record was unheld and idle longer than min-idle (the only effect: re-creation, possibly with another size). SIMULATION (M2, every history, every GC interval and minimum idle time, ticks and explicit passes anywhere): the server and the same server whose collector deletes nothing run in lock step - related states (equal up to records with no key and no waiter) give the same answer, events and tie flag to every operation and stay related, or the request re-creates a collected lock with another size (without GC: size mismatch; with GC: granted), which is exactly the effect C13 allows; hence along every history in which the GC-less server never answers size mismatch the two give the same answers request by request (gc_invisible_history). Strict invisibility is false of the code in one respect (K11: a failing Unlock with a stale key names a different reason after collection) - kernel-checked witness, and the simulation compares error codes up to exactly that difference. Tied by conc templates (GC pass x Lock/TryLock/Unlock, min-idle 0) and a metamorphic seq run (same history with GC off, implementation vs implementation).",
+        level_note="PARTIAL by K11. The reference of the simulation is the same model with a collector that deletes nothing (noGc: same ticks, same clock), the metamorphic stream compares the real server with GC on and off. D8 (GC racing an acquisition: double grant / panic) was found by this check and repaired (fix: 8781713). Trusted: Lean kernel, hand-written M1/M2, instrumented-build exploration.",
+        technique="Lean 4 proof (GC enabling condition + invariant over all schedules; lock-step simulation GC / no GC over all histories) + controlled interleavings + metamorphic GC-on/GC-off replay",
         trusted=M2_TRUST + CONC_TRUST,
     ),
     "C05": dict(
